@@ -227,6 +227,10 @@ func checkC17(c *Ctx) {
 		os.WriteFile(path, f, 0o644)
 		os.WriteFile(filepath.Join(work, "key.txt"), []byte(idString(pty)+"\n"), 0o600)
 		runCLI("age", []string{"-d", "-i", "key.txt", "hdr.age"}, cliOpts{dir: work, env: env, fsize: -1})
+		// ... and with an identity that matches nothing (every fallback the CLI may have gets its chance)
+		os.WriteFile(filepath.Join(work, "other.txt"), []byte(idString(x25519Party(c.rng.bytes(32)))+"\n"), 0o600)
+		runCLI("age", []string{"-d", "-i", "other.txt", "hdr.age"}, cliOpts{dir: work, env: env, fsize: -1})
+		runCLI("age", []string{"-d", "-i", "other.txt", "-i", "key.txt", "hdr.age"}, cliOpts{dir: work, env: env, fsize: -1})
 		c.note(fmt.Sprint("hdr:", i), true)
 		c.count("header-with-plugin-like-stanza-types")
 	}
